@@ -24,6 +24,7 @@ pub struct ClosureInfo {
     pub body: (usize, usize),
     pub body_is_block: bool,
     pub params: Vec<(usize, usize, bool)>, // span of pattern, is simple identifier
+    pub deref_names: Vec<Option<String>>,  // `&name` patterns: Some(name)
 }
 
 #[derive(Default)]
@@ -83,7 +84,19 @@ impl<'ast> Visit<'ast> for Collector {
                 (s, en, simple)
             })
             .collect();
+        let deref_names = e
+            .inputs
+            .iter()
+            .map(|p| match p {
+                syn::Pat::Reference(r) if r.mutability.is_none() => match &*r.pat {
+                    syn::Pat::Ident(pi) if pi.by_ref.is_none() && pi.subpat.is_none() => Some(pi.ident.to_string()),
+                    _ => None,
+                },
+                _ => None,
+            })
+            .collect();
         self.closure_nodes.push(ClosureInfo {
+            deref_names,
             span: sp,
             body: br(e.body.span()),
             body_is_block: matches!(&*e.body, syn::Expr::Block(_)),
